@@ -27,6 +27,7 @@ const (
 )
 
 type recW struct {
+	obs     *zzObs // when set, the CallFunc records here instead of the package-level zzO (concurrent harnesses)
 	h       http.Header
 	status  int
 	n       int
@@ -64,6 +65,8 @@ type zzObs struct {
 	path    string // req.URL.Path seen by the call
 	params  types.Params
 	hnode   types.Node
+	nparams int    // concurrent harnesses: copied during the call (the context goes back to the pool afterwards)
+	px      string // value of parameter "x" during the call
 }
 
 var zzO *zzObs
@@ -71,6 +74,20 @@ var zzO *zzObs
 // zzCall is the CallFunc of every harness router: it snapshots what the router reports.
 func zzCall(w http.ResponseWriter, r *http.Request, rt types.Route, h *hnd) {
 	o := zzO
+	if rw, ok := w.(*recW); ok && rw.obs != nil {
+		// concurrent harness: private observation, and only what is immutable on a node
+		o = rw.obs
+		o.calls++
+		o.id = h.id
+		o.nparams = rt.Params().Count()
+		o.px, _ = rt.Params().Get("x")
+		o.router = rt.RouterName()
+		if n := rt.Node(); n != nil {
+			o.node = true
+			o.pattern = n.Pattern()
+		}
+		return
+	}
 	o.calls++
 	o.id = h.id
 	o.chain = h.chain
